@@ -96,6 +96,17 @@ def _fold(node, env):
                 return a % b
             if isinstance(node.op, ast.Pow):
                 return a ** b
+            if isinstance(node.op, (ast.BitAnd, ast.BitOr, ast.BitXor, ast.LShift, ast.RShift)) and isinstance(a, int) and isinstance(b, int) \
+                    and not isinstance(a, bool) and not isinstance(b, bool) and (not isinstance(node.op, (ast.LShift, ast.RShift)) or 0 <= b <= 64):
+                if isinstance(node.op, ast.BitAnd):
+                    return a & b
+                if isinstance(node.op, ast.BitOr):
+                    return a | b
+                if isinstance(node.op, ast.BitXor):
+                    return a ^ b
+                if isinstance(node.op, ast.LShift):
+                    return a << b
+                return a >> b
         except Exception:
             raise _NoFold()
         raise _NoFold()
@@ -119,6 +130,10 @@ def _fold(node, env):
                     r = left == right
                 elif isinstance(op, ast.NotEq):
                     r = left != right
+                elif isinstance(op, ast.In) and isinstance(right, (tuple, list, frozenset)):
+                    r = left in right
+                elif isinstance(op, ast.NotIn) and isinstance(right, (tuple, list, frozenset)):
+                    r = left not in right
                 elif isinstance(op, ast.Is):
                     r = left is right
                 elif isinstance(op, ast.IsNot):
@@ -131,10 +146,15 @@ def _fold(node, env):
             left = right
         return res
     if isinstance(node, ast.BoolOp):
-        vals = [_fold(v, env) for v in node.values]
-        if isinstance(node.op, ast.And):
-            return all(vals)
-        return any(vals)
+        # short-circuit, like Python: operands after the deciding one are not evaluated (and need not be foldable)
+        is_and = isinstance(node.op, ast.And)
+        for v in node.values:
+            val = _fold(v, env)
+            if is_and and not val:
+                return False
+            if not is_and and val:
+                return True
+        return is_and
     if isinstance(node, ast.Call) and isinstance(node.func, ast.Name) and node.func.id == "float" and len(node.args) == 1:
         v = _fold(node.args[0], env)
         if isinstance(v, str) and v.strip().lower() in ("inf", "-inf", "+inf", "infinity", "-infinity"):
